@@ -32,3 +32,33 @@ func ghostMessageOneField(buf buffer.Buffer, tag uint16, v int32) (int32, error)
 	r, _, err := decode.DecodeInt32(msg.FieldRaw(tag))
 	return r, err
 }
+
+// ghostListTwoElements: C01 for the call sequence List / Int32(v1) / Int64(v2) / Build on a new
+// writer: the bytes returned parse as a list of two elements holding exactly v1 and v2.
+func ghostListTwoElements(buf buffer.Buffer, v1 int32, v2 int64) (int32, int64, int, error) {
+	w := newWriter(buf, false)
+	l := w.List()
+	if err := l.Int32(v1); err != nil {
+		return 0, 0, 0, err
+	}
+	if err := l.Int64(v2); err != nil {
+		return 0, 0, 0, err
+	}
+	b, err := l.Build()
+	if err != nil {
+		return 0, 0, 0, err
+	}
+	lst, err := types.OpenListErr(b)
+	if err != nil {
+		return 0, 0, 0, err
+	}
+	if lst.Len() != 2 {
+		return 0, 0, lst.Len(), nil
+	}
+	r1, _, err := decode.DecodeInt32(lst.GetBytes(0))
+	if err != nil {
+		return 0, 0, 2, err
+	}
+	r2, _, err := decode.DecodeInt64(lst.GetBytes(1))
+	return r1, r2, 2, err
+}
